@@ -307,6 +307,21 @@ def eval_label(case):
     def ul():
         n.update_labels(**{f: s})
     attempt('element.update_labels', ul, lambda: getattr(t.nodes['n1'].labels, f))
+    # an object that was valid when built and had this field assigned afterwards, then put on an element / a sliver
+    def edited():
+        lab = Labels(local_name='keep')
+        setattr(lab, f, s)
+        return lab
+    n.set_property('labels', Labels(local_name='keep'))
+
+    def assign():
+        n.labels = edited()
+    attempt('element.assign-edited-object', assign, lambda: getattr(t.nodes['n1'].labels, f))
+
+    def sliver_set():
+        box['sl'] = NodeSliver()
+        box['sl'].set_labels(edited())
+    attempt('sliver.set_labels-edited-object', sliver_set, lambda: getattr(box['sl'].get_labels(), f) if box.get('sl') is not None and box['sl'].get_labels() is not None else None)
     # whatever was accepted can be encoded and decoded again
     if box.get('x') is not None:
         try:
